@@ -25,6 +25,14 @@ def gen(cs, kinds_pool=("sec", "fi", "cp", "cp", "fi", "hedge", "cphedge"), nd=(
         kinds[0] = "cp"
     ndates = rng.randint(*nd)
     prices = 100 * np.exp(np.cumsum(rs.randn(ndates, n) * 0.005, axis=0))
+    for j, k in enumerate(kinds):
+        if k in ("hedge", "cphedge") and rng.random() < 0.5:
+            # swap-like mark-to-market: starts at par (exactly 0), wanders through negative values, may touch 0 again
+            z = rng.randint(1, 3)
+            path = np.concatenate([np.zeros(z), np.cumsum(rs.randn(ndates - z) * 0.5).round(3)])
+            if ndates - z > 3 and rng.random() < 0.5:
+                path[rng.randint(z + 1, ndates - 1)] = 0.0
+            prices[:, j] = path
     coupons = rs.choice([0, 0, 0.01, 0.02, 0.5], size=(ndates, n)) * rs.rand(ndates, n)
     cl = rs.rand(ndates, n) * 0.01
     cs_ = rs.rand(ndates, n) * 0.02
